@@ -162,12 +162,14 @@ package py
 //@ func (*Map).M__next__(m) (r, err)
 //@   modifies *
 //@   ensures prop: lasterr[0] != nil ==> err == lasterr[0] && r == nil
+//@   ensures empty: old(z.size) == 0 ==> err != nil && r == nil
 //@   loop 1 (i)
 //@     invariant nolast: lasterr[0] == nil
 
 //@ func (*Zip).M__next__(z) (r, err)
 //@   modifies *
 //@   ensures prop: lasterr[0] != nil ==> err == lasterr[0] && r == nil
+//@   ensures empty: old(z.size) == 0 ==> err != nil && r == nil
 //@   loop 1 (i)
 //@     invariant nolast: lasterr[0] == nil
 
